@@ -10,11 +10,11 @@ BEH = {"o": "ok", "r": "refuse", "h": "hang-in-connect", "H": "hang-mid-command"
 def scenario(r):
     n = r.weighted([(1, 1), (2, 3), (3, 5), (4, 4), (5, 3), (6, 2)])
     f = r.range(1, n + 1)
-    tconn = r.choice([1, 1, 2, 3, 5])
+    tconn = r.choice([0, 1, 1, 2, 3, 5])         # 0 = no connect time-out: the command time-out still has to be enforced
     tcmd = r.choice([0, 1, 1, 2, 4])
     hosts, behs = [], ""
     for i in range(n):
-        b = r.weighted([("o", 5), ("r", 2), ("h", 2), ("H", 2 if tcmd > 0 else 0)])
+        b = r.weighted([("o", 5), ("r", 2), ("h", 2 if tconn > 0 else 0), ("H", 2 if tcmd > 0 else 0)])
         out = err = "-"
         drc = 0
         if b in ("o", "H"):
